@@ -14,6 +14,7 @@ import enum
 import inspect
 import itertools
 import keyword
+from fractions import Fraction
 import unicodedata
 import typing
 from typing import Any, Dict, List, Optional
@@ -64,6 +65,7 @@ GEN_NAMES = ["data", "errors", "value", "key", "result", "extra", "getter", "sen
              # placeholders of the generators' own code templates
              "__target_expr__", "a__target_expr__b", "target_expr", "__data__", "__value__"]
 PREFIXES = ["loader_", "dumper_", "f_", "r_", "dfl_", "g_", "data_", "extra_", "known_keys_", "required_keys_", "v_", "accessor_"]
+SUFFIXES = ["_default", "_loader", "_dumper", "_raw", "_factory", "_0"]
 BUILTINS = ["print", "list", "dict", "type", "id", "len", "set", "str", "int", "isinstance", "tuple", "object", "getattr", "Exception",
             "KeyError", "AttributeError", "zip", "map", "iter", "next", "__canary__"]
 ESCAPED = ["from_", "class_", "None_", "import_", "lambda_", "def_", "return_"]
@@ -154,6 +156,13 @@ def trimmed(name):
 # ------------------------------------------------------------------------------------------------------------
 # leg 1: identifiers as field ids
 
+_NONLIT_A = Fraction(7, 3)
+
+
+def _nonlit_factory():
+    return Fraction(1, 9)
+
+
 def ident_programs(names_pairs):
     """(description, fields list of (name, default or NoDefault))"""
     for a, b in names_pairs:
@@ -164,7 +173,7 @@ def leg_identifiers(pairs, report):
     for a, b in pairs:
         if a == b:
             continue
-        for variant in ("plain", "defaults", "nested", "forbid", "collect", "aslist", "omit", "typeddict"):
+        for variant in ("plain", "defaults", "nested", "forbid", "collect", "aslist", "omit", "typeddict", "nonliteral"):
             case = {"leg": "ident", "names": [a, b], "variant": variant}
             what = f"fields ({a!r}, {b!r}) variant {variant}"
             sig = {"check": "C19.identifier", "variant": variant}
@@ -173,6 +182,11 @@ def leg_identifiers(pairs, report):
                     cls = typing.TypedDict("TD", {a: int, b: typing.NotRequired[str]})
                 elif variant in ("defaults", "omit"):
                     cls = dataclasses.make_dataclass("M", [(a, int), (b, str, dataclasses.field(default="dflt"))])
+                elif variant == "nonliteral":
+                    # defaults that cannot be rendered as literals become constants / factory objects of the generated loader
+                    cls = dataclasses.make_dataclass("M", [("zq", int, dataclasses.field(default=0)),
+                                                           (a, Any, dataclasses.field(default=_NONLIT_A)),
+                                                           (b, Any, dataclasses.field(default_factory=_nonlit_factory))])
                 elif variant == "collect":
                     cls = dataclasses.make_dataclass("M", [(a, int), (b, Dict[str, Any], dataclasses.field(default_factory=dict))])
                 else:
@@ -213,6 +227,15 @@ def leg_identifiers(pairs, report):
             elif variant == "typeddict":
                 data, fields = {ka: 1, kb: "s"}, {a: 1, b: "s"}
                 dumped = {k: v for k, v, p in ((ka, 1, private_a), (kb, "s", private_b)) if not p}
+            elif variant == "nonliteral":
+                if "zq" in (a, b, ka, kb):
+                    continue
+                # every presence pattern of the two defaulted fields
+                for pa, pb in ((False, False), (True, False), (False, True)):
+                    data = {"zq": 1, **({ka: "A!"} if pa else {}), **({kb: "B!"} if pb else {})}
+                    fields = {"zq": 1, a: "A!" if pa else _NONLIT_A, b: "B!" if pb else _nonlit_factory()}
+                    run_program(report, sig, what + f" present=({pa}, {pb})", case, cls, recipe, data, fields, None)
+                continue
             run_program(report, sig, what, case, cls, recipe, data, fields, dumped)
 
 
@@ -705,6 +728,12 @@ def run(tier):
             if (p + x).isidentifier():
                 pairs.append((x, p + x))
                 pairs.append((p + x, x))
+    # names the generators could derive by APPENDING to a field name
+    for x in ids if tier == "thorough" else ids[:len(GEN_NAMES)][::2] + ["limit", "x"]:
+        for suf in SUFFIXES:
+            if (x + suf).isidentifier():
+                pairs.append((x, x + suf))
+                pairs.append((x + suf, x))
     if tier == "thorough":
         pairs += [(a, b) for a, b in itertools.permutations(ids, 2)]
     shards = [("ident", pairs[i::96], tier) for i in range(96) if pairs[i::96]]
